@@ -97,10 +97,22 @@ func runCheck(repo, verif, prop, tier string) int {
 		timeout = 60 * time.Second
 		need = 2
 	}
-	reps := generate(p, func(c *Contract) bool { return hasProp(c, prop) })
+	allFuncs := prop == "C11" || prop == "C17"
+	reps := generate(p, func(c *Contract) bool { return allFuncs || hasProp(c, prop) })
+	if allFuncs {
+		// immutability / sharing: the frame and provenance obligations of every function under contract belong to these properties
+		for _, r := range reps {
+			for _, o := range r.Obls {
+				if (o.Kind == "frame" || o.Kind == "prov" || o.Cover) && !contains(o.Props, prop) {
+					o.Props = append(append([]string{}, o.Props...), prop)
+				}
+			}
+		}
+	}
 	if len(reps) == 0 {
 		return fail("no function under contract is tagged with " + prop)
 	}
+	genSecs := time.Since(start).Seconds()
 	work := filepath.Join(verif, "work", prop)
 	os.RemoveAll(work)
 	discharge(reps, work, timeout, need, prop)
@@ -248,7 +260,7 @@ func runCheck(repo, verif, prop, tier string) int {
 	for _, l := range knownLines {
 		fmt.Println(l)
 	}
-	fmt.Printf("property %s tier %s: %d obligations, %d discharged, %d functions, %.1fs\n", prop, tier, nObl, nDis, len(funcs), time.Since(start).Seconds())
+	fmt.Printf("property %s tier %s: %d obligations, %d discharged, %d functions, %.1fs (load+generate %.1fs)\n", prop, tier, nObl, nDis, len(funcs), time.Since(start).Seconds(), genSecs)
 	if len(violations) > 0 {
 		for _, v := range violations {
 			fmt.Println(v)
